@@ -377,7 +377,10 @@ def step (d : D) (toks : List String) : D × String :=
       else (d, "bad-op")
     | _, _, _ => (d, "bad-op")
   | ["label", name, lt, addr] => match nat? name, labelType? lt, nat? addr with
-    | some n, some lt, some a => ({ d with m := { d.m with labels := d.m.labels ++ [((n, lt), a)] } }, "ok")
+    | some n, some lt, some a =>
+      -- `BTreeMap::insert`: a later entry for the same label replaces the earlier one
+      let rest := d.m.labels.filter (fun l => !(l.1.1 == n && decide (l.1.2 = lt)))
+      ({ d with m := { d.m with labels := rest ++ [((n, lt), a)] } }, "ok")
     | _, _, _ => (d, "bad-op")
   | "adef" :: name :: fs => match nat? name, fields? fs with
     | some n, some fs => ({ d with m := { d.m with actionDefs := d.m.actionDefs ++ [(n, fs)] } }, "ok")
